@@ -464,7 +464,7 @@ def resub_consts(tier: str) -> Dict[str, Any]:
     big = tier != "quick"
     return dict(Ops=set(ALL_OPS), NSrc=2, NRun=1, MaxLen=2 if big else 1, Gaps={0, 1}, Uniform=True,
                 Terms={"C", "E", "U"}, Counts={0, 1, 2}, Cuts={0, 2}, Disposes=False, DspMax=0, Faults=False, NSubs=2,
-                NConds=2, NArgs=1, Build=False)
+                NConds=2, NArgs=1, Build=False, Slim=False)
 
 
 def resub_scenarios(ck=None, tier: str = "quick"):
@@ -826,6 +826,8 @@ def src_compare(scn: Dict[str, Any], exp: Dict[str, Any], got: Dict[str, Any]) -
                 if type(v) is not int or v != e["v"]:
                     return f"value:{v!r}!={e['v']}"
             else:
+                if not 0 <= e["v"] < len(info["vals"]):
+                    return f"value:{v!r} (no such token {e['v']})"
                 want = info["vals"][e["v"]]
                 if not (v is want or strict_eq(v, want)):
                     return f"value:{v!r}!={want!r}"
